@@ -167,7 +167,14 @@ def computeSampled (etas : List Rat) (v : Volume) : Option (Grid (List Nat)) :=
 
 def leRat (a b : Rat) : Bool := decide (a ≤ b)
 
-def sortRat (l : List Rat) : List Rat := l.mergeSort leRat
+def insertRat (x : Rat) : List Rat → List Rat
+  | [] => [x]
+  | y :: ys => if x ≤ y then x :: y :: ys else y :: insertRat x ys
+
+/-- ascending sort (insertion sort: structural, so that the kernel can evaluate it) -/
+def sortRat : List Rat → List Rat
+  | [] => []
+  | x :: xs => insertRat x (sortRat xs)
 
 /-- linear interpolation between closest ranks at the fractional rank `pos ∈ [0, n-1]` of a sorted list -/
 def lerpAt (sorted : List Rat) (pos : Rat) : Rat :=
@@ -314,10 +321,11 @@ def wtaMap (isMax : Bool) (disp : List Rat) (v : Volume) : Grid (Option Rat) :=
 
 /-! ## 4. Interval regularisation (`pandora/interval_tools.py`) -/
 
-def nanMinVal (l : List Val) : Val :=
-  match lmin (numsOf l) with
-  | none => .nan
+def valOfOpt : Option Rat → Val
   | some m => .num m
+  | none => .nan
+
+def nanMinVal (l : List Val) : Val := valOfOpt (lmin (numsOf l))
 
 /-- `np.nanmin(sliding_window_view(hstack(ones(pad), row, ones(pad)), k), axis=-1)`, `pad = k // 2` -/
 def slidingNanMin (k : Nat) (row : List Val) : List Val :=
@@ -398,8 +406,8 @@ def nanQuantile (l : List Val) (q : Rat) : Val :=
   | [x] => .num x
   | _ =>
     let p := q * 100
-    if p = 100 then (match lmax xs with | some m => .num m | none => .nan)
-    else if p = 0 then (match lmin xs with | some m => .num m | none => .nan)
+    if p = 100 then valOfOpt (lmax xs)
+    else if p = 0 then valOfOpt (lmin xs)
     else
       let s := sortRat xs
       let rank := 1 + ((xs.length : Rat) - 1) * (p / 100)
